@@ -1324,6 +1324,19 @@ def lowrank_degenerate_stream(ctx, lad):
     lad.prefetch([4])
     from openfermion.circuits.trotter.algorithms import low_rank as lr
     base = eightfold(of, rng, 2)
+    # final_rank = 3 must not exceed the true rank of the chemist matrix of `base` (see the exclusion below): redraw until
+    # the three leading singular components are well away from zero (seed 24 of a multi-seed sweep drew a rank-2 tensor)
+    for _ in range(200):
+        lam = lr.low_rank_two_body_decomposition(base.two_body_tensor, truncation_threshold=1e-12, spin_basis=True)[0] \
+            if hasattr(lr, 'low_rank_two_body_decomposition') else None
+        if lam is None:
+            from openfermion.circuits import low_rank_two_body_decomposition as _lrd
+            lam = _lrd(base.two_body_tensor, truncation_threshold=1e-12, spin_basis=True)[0]
+        mags = sorted((abs(x) for x in lam), reverse=True)
+        if len(mags) >= 3 and mags[2] > 1e-2:
+            break
+        st.count('redrawn: generic tensor of rank < 3')
+        base = eightfold(of, rng, 2)
     zero2 = of.InteractionOperator(0.25, np.array(base.one_body_tensor).copy(), np.zeros_like(base.two_body_tensor))
     diag1 = of.InteractionOperator(-0.5, np.diag(np.diag(np.array(base.one_body_tensor))).copy(),
                                    np.zeros_like(base.two_body_tensor))
